@@ -109,6 +109,13 @@ func (this *BinaryEntropyEncoder) Write(block []byte) (int, error) {
 		return -1, errors.New("Binary entropy codec: Invalid block size parameter (max is 1<<30)")
 	}
 
+	if count == 0 {
+		// Nothing is encoded for an empty block (the decoder reads nothing):
+		// there are no final bits to flush in Dispose()
+		this.disposed = true
+		return 0, nil
+	}
+
 	startChunk := 0
 	end := count
 	length := count
